@@ -592,8 +592,51 @@ def run_lazy(acc):
 # ----------------------------------------------------------------------------- dispatch
 
 
+def run_appreg(acc):
+    """'unpickled objects attach to the application registry' — the one in force when they are loaded: every sequence of
+    <= 3 changes of the application registry (through pint.set_application_registry or through the .set() method of
+    the object pint.get_application_registry() returns), with a Quantity, a Unit and a Measurement unpickled after each
+    change, and also BEFORE the next one (so that whatever the loaders remember is warm)"""
+    pint = core.boot()
+    regs_ = [regs.tiny(), regs.tiny(), regs.tiny()]
+    payload = {}
+    src = regs.tiny()
+    payload["Quantity"] = pickle.dumps(src.Quantity(3, "inch"))
+    payload["Unit"] = pickle.dumps(src.Unit("foot"))
+    payload["Measurement"] = pickle.dumps(src.Measurement(2.0, 0.5, "inch"))
+    payload["prefixed"] = pickle.dumps(src.Quantity(3, "kiloinch"))
+    before = pint.get_application_registry().get()
+    try:
+        for n in (1, 2, 3):
+            for seq in itertools.product([(i, how) for i in range(3) for how in ("set_application_registry", "ApplicationRegistry.set")], repeat=n):
+                hist = []
+                for i, how in seq:
+                    if how == "set_application_registry":
+                        pint.set_application_registry(regs_[i])
+                    else:
+                        pint.get_application_registry().set(regs_[i])
+                    hist.append([how, f"registry#{i}"])
+                    acc.ev()
+                    acc.nt(("appreg", seq, len(hist)))
+                    for kind, data in payload.items():
+                        o = call(lambda: pickle.loads(data))
+                        if o[0] != "ok" or o[1]._REGISTRY is not regs_[i]:
+                            which = [k for k, r in enumerate(regs_) if o[0] == "ok" and o[1]._REGISTRY is r]
+                            acc.violation(["application-registry", kind, "unpickled-object-attached-to-another-registry", how], {"history": list(hist), "object": kind}, f"registry#{i}", (f"registry#{which[0]}" if which else "some other registry") if o[0] == "ok" else o[1])
+                            break
+                        # ... and it works with objects of that registry
+                        if kind == "Quantity":
+                            o2 = call(lambda: (o[1] + regs_[i].Quantity(1, "inch")).magnitude)
+                            if o2 != ("ok", 4):
+                                acc.violation(["application-registry", kind, "unpickled-object-does-not-combine-with-the-application-registry", how], {"history": list(hist)}, 4, o2)
+    finally:
+        pint.set_application_registry(before)
+    acc.outcome("application-registry")
+    acc.sample({"clause": "application-registry", "history": [["set_application_registry", "registry#0"], ["ApplicationRegistry.set", "registry#1"]], "objects": list(payload)})
+
+
 def shards(tier, seed):
-    out = [("roundtrips", nt) for nt in ("float", "Fraction", "Decimal")] + [("fresh",), ("exceptions",), ("cross",), ("lazy",)]
+    out = [("roundtrips", nt) for nt in ("float", "Fraction", "Decimal")] + [("fresh",), ("exceptions",), ("cross",), ("lazy",), ("appreg",)]
     depth = 3 if tier == "quick" else 4
     out.append(("hist", 0, None))
     for e in HEV:
@@ -613,6 +656,8 @@ def run_shard(acc, shard, tier, seed):
         run_cross(acc)
     elif k == "lazy":
         run_lazy(acc)
+    elif k == "appreg":
+        run_appreg(acc)
     elif k == "hist":
         drv = ForkDriver()
         first = None if shard[2] is None else tuple(shard[2])
@@ -627,7 +672,9 @@ def run_shard(acc, shard, tier, seed):
 def replay(rec):
     site, case = rec["site"], rec["case"]
     acc = core.Acc(PROPERTY)
-    if "history" in case:
+    if site[0] == "application-registry":
+        run_appreg(acc)
+    elif "history" in case:
         drv = ForkDriver()
         hist = tuple(tuple(e) for e in case["history"])
         s, outs = explore.run_history(drv, hist)
@@ -654,7 +701,7 @@ MANIFEST = {
     "and share no mutable state. Exhaustive: 5 object kinds x 10 unit expressions (with prefixed units registered lazily) x 8 magnitude types (incl. 0-d, 1-d and 2-d ndarrays) x {pickle 0-5, copy, deepcopy, tuple, Quantity(q)} in float/Fraction/Decimal "
     "registries; a copy / deepcopy / Quantity(q) of an array-valued quantity is a snapshot: 4 in-place operations (*=, +=, ito_root_units, a write into the buffer) on either object leave the other unchanged; all those pickles loaded in a fresh interpreter (attached to the application registry, prefixed units registered first, magnitudes intact); every exception class x every argument tuple over an alphabet with the falsy look-alikes of each position ("", empty container, 0, None, empty tuple) plus 10 instances as raised by the library (about 450 instances) x "
     "8 ways (type, fields, args, message); 14 operators x {Quantity, Unit} operand kinds x scalar/array x 4 registry-pair kinds (fresh/fresh, source/deepcopy, deepcopy/source, application/explicit) must raise "
-    "ValueError; the lazily built default registry equals an explicit one on 12 probes in fresh interpreters.",
+    "ValueError; every sequence of <= 3 changes of the application registry (set_application_registry or ApplicationRegistry.set) with a Quantity, Unit, Measurement and a prefixed quantity unpickled after each: they attach to the registry in force; the lazily built default registry equals an explicit one on 12 probes in fresh interpreters.",
     "note": "Trusted: pickle/copy themselves; the probe sets. == across registries is not asserted (the property names arithmetic and ordering). Duck arrays other than ndarray are outside.",
     "ref": "DESIGN.md §4 C18",
 }
